@@ -165,8 +165,8 @@ CLAIMS.update({
     'C04': (
         'pattern-simulator table folding, polarity typestate, key-domain rule, users-index pairing, snapshot-before-mutation and shape rules',
         'Structural clauses in a file that no test can import in this sandbox: the bit-parallel pattern simulator denotes the oracle function for every gate name and arity it accepts and rejects the rest; '
-        'a label read from outputs_negation_mapping (complement of an output) is only used to find or build a NOT (known finding F02); a label looked up in output_labels_mapping must be one of its keys (known finding F23); '
-        'hand-written re-pointing of users keeps the users index exact (known finding F03); the validation snapshot is a deep copy taken before the first mutation and validation raises iff the miter is satisfiable; '
+        'a label read from outputs_negation_mapping (complement of an output) is only used to find or build a NOT (F02, repaired); a label looked up in output_labels_mapping must be one of its keys (F23, repaired); '
+        'hand-written re-pointing of users keeps the users index exact (F03, repaired); the validation snapshot is a deep copy taken before the first mutation and validation raises iff the miter is satisfiable; '
         'the replacement is searched with size - 1 gates in the requested basis over the don\'t-care model of exactly the non-trivial outputs, failures leave the circuit unchanged. '
         'Not decided: cut filtering, don\'t-care extraction, splice correctness, truth-table equality and size non-increase in general. C04.OUTS: every occurrence of a replaced output is rewritten before the gate is removed; the replace_subcircuit rules (C19.SUBC) are part of this check.',
         'DESIGN.md 4 C04',
@@ -222,13 +222,36 @@ ADDENDA = {
     'C19': ' Round 2: Block._rename_gate folded on lists with repeated labels.',
 }
 
+# sentences appended after the round of behaviour-preserving refactorings (DESIGN.md 10.3): which clause is now decided by a
+# fold (the analyser's own evaluator instantiating the function on model states), the shape rules accompanying it softly
+SOFT = (' The structural rules named above are kept but run in a soft scope: where they do not recognise the way the code is written they step aside for the fold '
+        '(recorded as structural_rules_not_applicable in the evidence) instead of reporting a violation; a fold decides the bounded family named here, not all inputs.')
+ADDENDA3 = {
+    'C01': ' Round 3: C01.EVAL folds all six evaluators (evaluate_full_circuit, the explicit-stack evaluate_circuit, evaluate_circuit_outputs, evaluate, evaluate_at, get_truth_table) on instances of the repository\'s own Circuit class over a family of model circuits in two storage orders and compares every value with the oracle; the APPLY shape rule is soft.' + SOFT,
+    'C02': ' Round 3: C02.HIST folds seeded histories (300 quick / 3000 thorough, <= 12 calls) of every public mutator the statement lists - incl. the five connect wrappers, block creation/removal, replace_subcircuit, into_bench, copy; legal and illegal arguments, bad labels and bad operands drawn apart - on instances of the repository\'s Circuit class and re-checks the whole invariant (operands/outputs exist, users = inverse operand multiset, inputs = INPUT gates once, blocks, acyclicity, both topological orders, copy equal and unshared) after every call that returns; directed replace_subcircuit cases (C19.SUBC) and the hand-made minimisation cases (C04.FOLD) are shared. The write-site / guard / alias shape rules are soft only for functions some fold actually executed: a shape finding in a function no fold entered (a new public writer) stands as a violation.' + SOFT,
+    'C03': ' Round 3: C18.PIPE (every way of composing passes equals sequencing, shared with C18) decides the composition and cleanup clauses; FRESH/IFACE/EMIT/SYM/UNARY shape rules are soft.' + SOFT,
+    'C04': ' Round 3: C04.FOLD folds minimize_subcircuits END TO END (cone extraction, don\'t-care analysis, trivial-output short cut, renaming, splice through replace_subcircuit, cycle check, state bookkeeping - all the repository\'s code) over hand-made and seeded model circuits x {AIG, XAIG} x cut sizes 2/3 x two cut enumeration orders, with every k-feasible cut as cut family, an exhaustive-search synthesiser (or none) as oracle and a brute-force solver for the validation miter: same inputs, number of outputs, truth table, not more non-trivial gates, validation fails exactly when the result is wrong, no internal error on circuits without equivalent gates. This fold found F30 and confirmed F02/F03/F23; all were repaired in /repo together with F31-F33. Not decided: circuits larger than the family, the real mockturtle cut enumerator, the SAT-based synthesiser and its time limit.' + SOFT,
+    'C05': ' Round 3: C05.SAT folds is_circuit_satisfiable end to end with a brute-force model solver in place of pysat (answer, model satisfies the CNF and projects onto a satisfying assignment); ALLOC/UNIT/plumbing shape rules are soft.' + SOFT,
+    'C10': ' Round 3: C10.FOLD folds connect_circuit (both directions, internal / repeated / partial connector lists, naming and prefix options, attached circuits with repeated operands) on instances of the repository\'s Circuit class and compares inputs, outputs and truth table with the documented composition, checks the attached circuit untouched and the named block extracted as a circuit (C10.BLOCK); C10.WRAP folds the five wrappers against connect_circuit; C10.UNIQ folds repeated and ill-posed connector lists (F11 stays the one open finding). EMIT/IFACE/IDX shape rules are soft.' + SOFT,
+    'C11': ' Round 3: C11.RT folds format_circuit -> from_bench_string and save_to_file -> from_bench_file (through an in-memory file) on model circuits of every gate type, n-ary gates, constants with operands (F28 fixed), repeated and input outputs, users-first storage and unusual labels; PRINT is soft.' + SOFT,
+    'C12': ' Round 3: C12.FOLD also folds model completion (define), the integer wrappers and Function.define (F29 fixed); ORDER/CARRY/DELEG/DEFINE shape rules are soft.' + SOFT,
+    'C13': ' Round 3: C13.FOLD folds build_miter over pairs of small circuits (0-2 outputs, outputs that are inputs or repeated, different input labels and orders): operands untouched, inputs in the left order, one output True exactly where the output vectors differ, every gate of the miter applicable to its operand count, mismatched shapes rejected with MiterDifferentShapesError. WIRE/SHAPE/ARITY shape rules are soft.' + SOFT,
+    'C14': ' Round 3: C14.HIST runs into_bench inside the seeded histories of C02.HIST (all gate types, constants with operands, blocks): only bench-basis types remain, well formed, inputs/outputs/truth table unchanged, and into_bench never refuses a well-formed circuit with an input.' + SOFT,
+    'C15': ' Round 3: C15.FOLD folds the evaluators over every three-valued assignment of the model circuits: a reported True/False holds under every completion, defining one more input never changes a defined result, total assignments give the two-valued denotation, absent inputs count as Undefined.' + SOFT,
+    'C16': ' Round 3: C16.RT folds encode_circuit -> decode_circuit with the bit writer and reader over model circuits (codec error, or same shape and truth table).' + SOFT,
+    'C17': ' Round 3: C17.DB folds an in-memory database end to end (add every normal-form two-input table, look up every table with 1-2 (3) outputs through normalisation, key, codec, denormalisation). MIRROR/KEY shape rules are soft; who-may-write stays hard.' + SOFT,
+    'C18': ' Round 3: C18.PIPE folds cleanup (light/heavy), transform, apply_transformers on lists, the pipe operator (nested, mixed with lists), repeated idempotent and non-idempotent passes, distinct compositions, and the literal post-condition of each merging pass on what its public transform returns; LIN/IDEM/POST/RRG shape rules are soft.' + SOFT,
+    'C19': ' Round 3: C19.HIST checks rename_gate / replace_inputs / replace_subcircuit / remove_gate inside the seeded histories (truth table, cofactor, references); C19.SUBC adds directed replace_subcircuit cases (boundary inputs that are outputs, label clashes, an inner gate read from outside, overlapping mappings, a cycle-closing replacement).' + SOFT,
+    'C20': ' Round 3: C20.FOLD folds top_sort, dfs, bfs (every start set, both directions, hooks that read the live state) and the cycle check on instances of the repository\'s Circuit class over model circuits incl. cyclic ones; the KAHN/STATE/DUAL/ENTRY/UNVIS/CYCLE shape rules are soft.' + SOFT,
+}
+
 def main():
     checks = []
     for p in ALL:
         if p not in CLAIMS:
             continue
         tech, text, ref = CLAIMS[p]
-        text = text + ADDENDA.get(p, '')
+        text = text + ADDENDA.get(p, '') + ADDENDA3.get(p, '')
         checks.append({
             'property_id': p,
             'quick_cmd': f'{PY} -m cirbo_verif check {p} --tier quick',
@@ -260,13 +283,15 @@ def main():
                 'name': 'cirbo_verif',
                 'path': '/verif/cirbo_verif',
                 'serves_properties': sorted(CLAIMS),
-                'kind_free_text': 'repository-specific static analyser over the Python ast: table/template extraction with a '
-                                  'finite-domain evaluator, guard contexts, effect summaries, index-balance, registry and protocol rules',
+                'kind_free_text': 'repository-specific static analyser over the Python ast: table/template extraction and folds (its own evaluator '
+                                  'instantiating repository functions on small model states, judged by an independent oracle), guard contexts, effect '
+                                  'summaries, index-balance, registry, who-may-write and protocol rules; imports nothing from the repository',
             }
         ],
         'checks': checks,
         'not_applicable': na,
-        'notes': 'Technique family: static analysis only. Exit 0 = all obligations discharged (KNOWN-FINDING lines allowed), '
+        'notes': 'Technique family: static analysis only (syntax-tree rules plus bounded template instantiation by the analyser\'s own evaluator; DESIGN.md 1.2 says '
+                 'plainly where that line runs). Exit 0 = all obligations discharged (KNOWN-FINDING lines allowed), '
                  '1 = VIOLATION, 2 = ANALYSIS-ERROR (anchor vanished / unrecognised shape / instance floor not met).',
     }
     (VERIF / 'MANIFEST.json').write_text(json.dumps(manifest, indent=1) + '\n')
